@@ -179,6 +179,10 @@ func (m *runtimeContextManager) requireCPU(cpuAmount uint64) {
 		m.KillContext()
 	}
 	cpuUsed := m.usedResources.Cpu + cpuAmount
+	if cpuUsed < cpuAmount {
+		// The sum does not fit in 64 bits: saturate so that any limit is reached.
+		cpuUsed = ^uint64(0)
+	}
 	if atLimit(cpuUsed, m.hardLimits.Cpu) {
 		m.TerminateContext("CPU limit of %d exceeded", m.hardLimits.Cpu)
 	}
@@ -207,6 +211,10 @@ func (m *runtimeContextManager) requireMem(memAmount uint64) {
 		m.KillContext()
 	}
 	memUsed := m.usedResources.Memory + memAmount
+	if memUsed < memAmount {
+		// The sum does not fit in 64 bits: saturate so that any limit is reached.
+		memUsed = ^uint64(0)
+	}
 	if atLimit(memUsed, m.hardLimits.Memory) {
 		m.TerminateContext("memory limit of %d exceeded", m.hardLimits.Memory)
 	}
